@@ -541,13 +541,40 @@ func main() {
 		jobs = append(jobs, job{d.mk, d.name, scenario{name: "Put;Get || Del;Put", init: "empty", threads: [][]call{{menu[0], menu[4]}, {menu[3], menu[0]}}}, 2})
 		jobs = append(jobs, job{d.mk, d.name, scenario{name: "Upd;Scan || Upd;Get", init: "present", threads: [][]call{{menu[2], menu[5]}, {menu[2], menu[4]}}}, 2})
 		jobs = append(jobs, job{d.mk, d.name, scenario{name: "CreateTable;Put || CreateTable;Put", init: "absent", threads: [][]call{{menu[8], menu[0]}, {menu[8], menu[0]}}}, 2})
+		// three threads, one call each, over the calls that write shared state (quick: bound 1)
+		{
+			tri := []call{menu[0], menu[2], menu[3], menu[8], menu[9], menu[12]}
+			for i := 0; i < len(tri); i++ {
+				for j := i; j < len(tri); j++ {
+					for k := j; k < len(tri); k++ {
+						if thorough {
+							continue // covered by the larger set below
+						}
+						jobs = append(jobs, job{d.mk, d.name, scenario{name: tri[i].name + " || " + tri[j].name + " || " + tri[k].name, init: "present", threads: [][]call{{tri[i]}, {tri[j]}, {tri[k]}}}, 1})
+					}
+				}
+			}
+		}
 		if thorough {
+			// pairs once more with three preemptions, from the state that has data
+			for i := 0; i < len(menu); i++ {
+				for j := i; j < len(menu); j++ {
+					jobs = append(jobs, job{d.mk, d.name, scenario{name: menu[i].name + " || " + menu[j].name, init: "present", threads: [][]call{{menu[i]}, {menu[j]}}}, 3})
+				}
+			}
+			// two calls per thread over the writers
+			w := []call{menu[0], menu[1], menu[2], menu[3], menu[7], menu[8], menu[9], menu[12]}
+			for i := 0; i < len(w); i++ {
+				for j := 0; j < len(w); j++ {
+					jobs = append(jobs, job{d.mk, d.name, scenario{name: w[i].name + ";" + w[j].name + " || " + w[j].name + ";" + w[i].name, init: "empty", threads: [][]call{{w[i], w[j]}, {w[j], w[i]}}}, 2})
+				}
+			}
 			// triples of data operations and management operations
 			tri := []call{menu[0], menu[2], menu[3], menu[7], menu[8], menu[9], menu[12], menu[13]}
 			for i := 0; i < len(tri); i++ {
 				for j := i; j < len(tri); j++ {
 					for k := j; k < len(tri); k++ {
-						jobs = append(jobs, job{d.mk, d.name, scenario{name: tri[i].name + " || " + tri[j].name + " || " + tri[k].name, init: "present", threads: [][]call{{tri[i]}, {tri[j]}, {tri[k]}}}, 1})
+						jobs = append(jobs, job{d.mk, d.name, scenario{name: tri[i].name + " || " + tri[j].name + " || " + tri[k].name, init: "present", threads: [][]call{{tri[i]}, {tri[j]}, {tri[k]}}}, 2})
 					}
 				}
 			}
